@@ -68,6 +68,9 @@ structure Sh where
   pushes : Nat
   pops : Nat
   wk : Bid → Tid         -- who is waking this blocker
+  own : Bid → Tid        -- who created (owns) this blocker
+  cons : Bid → Bool      -- the owner consumed the token of this blocker (its park returned Ok)
+  pb : Option Bid        -- the blocker whose delivered, unconsumed token currently carries the lock, if any
 
 def contK (k : K) : Pc := match k with | .toPark b => .w5park b | .fin => .idle
 
@@ -79,7 +82,7 @@ def tstep (sh : Sh) (me : Tid) : Pc → Env → Option (Sh × Pc)
   | .held, _ => none
   | .m0cas, _ =>
       if sh.cnt = 1 then some ({ sh with cnt := 0 }, .held)
-      else some ({ sh with nextB := sh.nextB + 1 }, .w1push sh.nextB)
+      else some ({ sh with nextB := sh.nextB + 1, own := upd sh.own sh.nextB me }, .w1push sh.nextB)
   | .t0cas, _ =>
       if sh.cnt = 1 then some ({ sh with cnt := 0 }, .held) else some (sh, .idle)
   | .w1push b, _ => some ({ sh with q := sh.q ++ [b], pushes := sh.pushes + 1 }, .w2fsub b)
@@ -89,17 +92,18 @@ def tstep (sh : Sh) (me : Tid) : Pc → Env → Option (Sh × Pc)
   | .w3pop k, _ => match sh.q with
       | [] => none           -- `expect("got null blocker!")` would fire: proved unreachable
       | w :: q' => some ({ sh with q := q', vph := upd sh.vph w .v1, pops := sh.pops + 1, wk := upd sh.wk w me }, .wake1 w k)
-  | .wake1 w k, _ => some ({ sh with tok := upd sh.tok w true, vph := upd sh.vph w .v2 }, .wake2 w k)
+  | .wake1 w k, _ => some ({ sh with tok := upd sh.tok w true, vph := upd sh.vph w .v2, pb := some w }, .wake2 w k)
   | .wake2 w k, _ => some ({ sh with unparked := upd sh.unparked w true, vph := upd sh.vph w .v3 }, .wake3 w k)
   | .wake3 w k, _ =>
       some ({ sh with release := upd sh.release w false, vph := upd sh.vph w .v4,
                       duty := if sh.release w then upd sh.duty w true else sh.duty,
-                      dup := sh.dup || (sh.release w && sh.duty w) },
+                      dup := sh.dup || (sh.release w && sh.duty w),
+                      pb := if sh.release w then none else sh.pb },
             if sh.release w then .p0fadd k else contK k)
   | .w5park b, .abort => some ({ sh with aph := upd sh.aph b .a1 }, .w6load b)
-  | .w5park b, _ => if sh.tok b then some ({ sh with tok := upd sh.tok b false }, .held) else none
+  | .w5park b, _ => if sh.tok b then some ({ sh with tok := upd sh.tok b false, cons := upd sh.cons b true, pb := none }, .held) else none
   | .w6load b, _ =>
-      if sh.unparked b then some ({ sh with aph := upd sh.aph b .a5, duty := upd sh.duty b true, dup := sh.dup || sh.duty b }, .p0fadd .fin)
+      if sh.unparked b then some ({ sh with aph := upd sh.aph b .a5, duty := upd sh.duty b true, dup := sh.dup || sh.duty b, pb := none }, .p0fadd .fin)
       else some ({ sh with aph := upd sh.aph b .a2 }, .w7set b)
   | .w7set b, _ => some ({ sh with release := upd sh.release b true, aph := upd sh.aph b .a3 }, .w8load b)
   | .w8load b, _ => if sh.unparked b then some ({ sh with aph := upd sh.aph b .a4 }, .w9swap b)
@@ -107,7 +111,8 @@ def tstep (sh : Sh) (me : Tid) : Pc → Env → Option (Sh × Pc)
   | .w9swap b, _ =>
       some ({ sh with release := upd sh.release b false, aph := upd sh.aph b .a5,
                       duty := if sh.release b then upd sh.duty b true else sh.duty,
-                      dup := sh.dup || (sh.release b && sh.duty b) },
+                      dup := sh.dup || (sh.release b && sh.duty b),
+                      pb := if sh.release b then none else sh.pb },
             if sh.release b then .p0fadd .fin else .idle)
   | .p0fadd k, _ => some ({ sh with cnt := sh.cnt + 1, M := if sh.cnt < 0 then sh.M + 1 else sh.M }, if sh.cnt < 0 then .w3pop k else contK k)
 
@@ -124,7 +129,7 @@ def step (s : St) (t : Tid) (e : Env) : Option St :=
   else none
 
 def init (n : Nat) (i : Nat) : St :=
-  ⟨n, ⟨i, [], fun _ => false, fun _ => false, fun _ => false, 0, fun _ => .a0, fun _ => .v0, fun _ => false, false, 0, 0, 0, 0, fun _ => 0⟩, fun _ => .idle⟩
+  ⟨n, ⟨i, [], fun _ => false, fun _ => false, fun _ => false, 0, fun _ => .a0, fun _ => .v0, fun _ => false, false, 0, 0, 0, 0, fun _ => 0, fun _ => 0, fun _ => false, none⟩, fun _ => .idle⟩
 
 /-- every finite schedule: disabled choices are skipped, so `∀ sched` is every interleaving -/
 def run (s : St) : List (Tid × Env) → St
